@@ -233,7 +233,7 @@ pub fn expected_dump(spec: &Spec) -> Vec<String> {
 
 fn le(b: &[u8]) -> u64 {
     let mut v = 0u64;
-    for (i, x) in b.iter().enumerate() {
+    for (i, x) in b.iter().enumerate().take(8) {
         v |= (*x as u64) << (8 * i);
     }
     v
@@ -356,7 +356,7 @@ pub fn dump_all_clusters(dir: &Path, decdir: &Path) {
                 let pack = &bytes[pk.origin..pk.origin + pk.size];
                 if let Some(dec) = crate::cpdec::decode(pack) {
                     let d = decdir.join(crate::out::hex(&pk.uuid));
-                    crate::cpdec::dump_clusters(pack, &dec, &d);
+                    crate::cpdec::dump_clusters_published(pack, &dec, &d);
                 }
             }
         }
